@@ -73,6 +73,47 @@ class Draws:
         return None
 
 
+def _rotation_scipy_idiom(prog: Program, L: Ledger, f: FuncInfo, inl) -> bool:
+    """Alternative idiom: a Haar-uniform rotation from scipy handed the simulation generator, applied to a
+    copy of the group about its centre of mass: scipy…Rotation.random(rng=context.rng).apply(P − c) + c."""
+    from ..loader import dotted
+
+    ap = [c for c in calls_in(f.node) if isinstance(c.func, ast.Attribute) and c.func.attr == "apply" and isinstance(c.func.value, ast.Call)]
+    if len(ap) != 1:
+        return False
+    rnd = ap[0].func.value
+    if not (isinstance(rnd.func, ast.Attribute) and rnd.func.attr == "random"):
+        return False
+    full = prog.resolve_dotted(f.module, dotted(rnd.func.value) or "")
+    if full != "scipy.spatial.transform.Rotation":
+        return False
+    gen = [k.value for k in rnd.keywords if k.arg in ("rng", "random_state")]
+    L.check(bool(gen) and norm(gen[0]) == "context.rng", "G3", "Rotation.calculate:generator", f.where,
+            "the random rotation is not drawn from the simulation generator", "orientation proposals depend on global random state", norm(rnd)[:80])
+    arg = inl.inline(ap[0].args[0]) if ap[0].args else None
+    okc = False
+    centre = None
+    if isinstance(arg, ast.BinOp) and isinstance(arg.op, ast.Sub):
+        centre = arg.right
+        mol = arg.left
+        okc = norm(centre).endswith(".get_center_of_mass()") and norm(mol).endswith(".positions") and norm(mol)[: -len(".positions")] == norm(centre)[: -len(".get_center_of_mass()")]
+        if okc:
+            molexpr = mol.value
+            while isinstance(molexpr, ast.Call) and norm(molexpr.func) == "cast":
+                molexpr = molexpr.args[1]
+            okc = isinstance(molexpr, ast.Subscript) and norm(inl.inline(molexpr.value)) == "context.atoms" and norm(molexpr.slice) == "context._moving_indices"
+    L.check(okc, "G3", "Rotation.calculate:centre", f.where, "the rotation is not applied to (copy of the group's positions − its centre of mass)", "the group's centre of mass moves / other atoms rotate", norm(arg)[:100] if arg is not None else "")
+    rets = [st for st in f.body() if isinstance(st, ast.Return)]
+    rv = inl.inline(rets[0].value) if rets else None
+    okr = False
+    if isinstance(rv, ast.BinOp) and isinstance(rv.op, ast.Sub) and centre is not None:
+        left = rv.left
+        okr = isinstance(left, ast.BinOp) and isinstance(left.op, ast.Add) and norm(left.right) == norm(centre) and norm(rv.right) in ("context.atoms.positions[context._moving_indices]",)
+    L.check(okr, "G3", "Rotation.calculate:difference", f.where, "returned value is not (rotated + centre) − original positions of the same index set", "", norm(rv)[:100] if rv is not None else "")
+    L.assume("scipy.spatial.transform.Rotation.random draws Haar-uniform rotations: a rotation and its inverse are equally likely")
+    return True
+
+
 def _translate(f: FuncInfo, table=None, binds=None, extra_hooks=()):
     vocab = Vocabulary(table or {}, default_assumptions={"real": True})
     for k, v in (binds or {}).items():
@@ -201,8 +242,12 @@ def run(prog: Program, L: Ledger) -> None:
     f = rot.methods["calculate"]
     inl = Inliner(f.node)
     er = [c for c in calls_in(f.node) if isinstance(c.func, ast.Attribute) and c.func.attr in ("euler_rotate", "rotate")]
-    if len(er) != 1:
+    if not er and _rotation_scipy_idiom(prog, L, f, inl):
+        er = None
+    elif len(er) != 1:
         raise AnalysisError("Rotation.calculate: expected one ASE rotation call")
+    if er is None:
+        return _after_rotation(prog, L, s)
     call = er[0]
     recv = inl.inline(call.func.value)
     # the rotated object is a copy of the moving sub-structure
@@ -249,6 +294,12 @@ def run(prog: Program, L: Ledger) -> None:
     rv = rets[0].value
     okr = isinstance(rv, ast.BinOp) and isinstance(rv.op, ast.Sub) and norm(rv.left).endswith(".positions") and norm(inl.inline(rv.left.value)) == norm(recv) and norm(inl.inline(rv.right)).replace("atoms.positions", "context.atoms.positions").replace("context.context.", "context.") in ("context.atoms.positions[context._moving_indices]",)
     L.check(okr, "G3", "Rotation.calculate:difference", f.where, f"returned `{norm(rv)[:100]}` is not rotated − original positions of the same index set", "atoms of the group are displaced inconsistently", norm(rv)[:120])
+
+    return _after_rotation(prog, L, s)
+
+
+def _after_rotation(prog: Program, L: Ledger, s) -> None:
+    from ..dataflow import Inliner
 
     # ------------------------------------------------------------------ TranslationRotation
     trr = prog.cls("TranslationRotation")
